@@ -104,6 +104,7 @@ def samp_close(vec, model_line, tol=4e-15):
 def werner_grid(ctx, d):
     rng = ctx.rng
     g = [-1.0, 1.0, 0.0, 1 / d, np.nextafter(1 / d, 2), np.nextafter(1 / d, -2), 0.5, -0.5, 0.999999, -0.999999]
+    g += [1 / d - 10.0 ** (-k) for k in (1, 2, 3, 5, 8, 12)] + [min(1.0, 1 / d + 10.0 ** (-k)) for k in (1, 2, 3, 5, 8, 12)]
     g += [rng.uniform(-1, 1) for _ in range(4 if ctx.quick() else 40)]
     return g
 
@@ -112,6 +113,7 @@ def iso_grid(ctx, d):
     rng = ctx.rng
     lo = -1 / (d ** 2 - 1)
     g = [lo, 1.0, 0.0, 1 / (d + 1), np.nextafter(1 / (d + 1), 2), np.nextafter(1 / (d + 1), -2), 1 / d, 0.5, lo / 2, 0.999999]
+    g += [1 / (d + 1) - 10.0 ** (-k) for k in (1, 2, 3, 5, 8, 12)] + [1 / (d + 1) + 10.0 ** (-k) for k in (1, 2, 3, 5, 8, 12)]
     g += [rng.uniform(lo, 1) for _ in range(4 if ctx.quick() else 40)]
     return g
 
@@ -245,11 +247,13 @@ def correspondence(ctx):
     # ---- UPB tables (exact) and the product / complement construction (exact on the binary64 values) -------------------
     ops, impl = [], []
     for name in ['tiles', 'feng4x4', 'feng2x2x2x2']:
-        upb = numqi.entangle.load_upb(name)
+        upb = guarded(lambda: numqi.entangle.load_upb(name))
         ops.append(f'C18 upbtable {name}')
         impl.append(upb)
     model = common.run_model(ops)
     for op, upb, b in zip(ops, impl, model):
+        if isinstance(upb, str):
+            cmp(ctx, op, False, b, upb); continue
         parties = b.split(' ')
         ok = len(parties) == len(upb)
         if ok:
@@ -260,8 +264,8 @@ def correspondence(ctx):
     ops = [f'C18 upbcheck {name}' for name in ['tiles', 'feng4x4', 'feng2x2x2x2']]
     impl = []
     for name in ['tiles', 'feng4x4', 'feng2x2x2x2']:
-        prod = numqi.entangle.load_upb(name, return_product=True)
-        impl.append('1' if np.abs(prod.conj() @ prod.T - np.eye(prod.shape[0])).max() < 1e-12 else '0')
+        prod = guarded(lambda: numqi.entangle.load_upb(name, return_product=True))
+        impl.append(prod if isinstance(prod, str) else ('1' if np.abs(prod.conj() @ prod.T - np.eye(prod.shape[0])).max() < 1e-12 else '0'))
     model = common.run_model(ops)
     for op, a, b in zip(ops, impl, model):
         cmp(ctx, op, a == b, b, a)
@@ -315,6 +319,54 @@ def pt(rho, dA, dB, party=1):
 
 def min_eig(M):
     return float(np.linalg.eigvalsh((M + M.conj().T) / 2)[0])
+
+
+def ref_horodecki2x4(b):
+    """P. Horodecki, Phys. Lett. A 232 (1997) 333, eq. (32), written out entry by entry"""
+    r = math.sqrt(1 - b * b) / 2
+    p = (1 + b) / 2
+    M = [[b, 0, 0, 0, 0, b, 0, 0],
+         [0, b, 0, 0, 0, 0, b, 0],
+         [0, 0, b, 0, 0, 0, 0, b],
+         [0, 0, 0, b, 0, 0, 0, 0],
+         [0, 0, 0, 0, p, 0, 0, r],
+         [b, 0, 0, 0, 0, b, 0, 0],
+         [0, b, 0, 0, 0, 0, b, 0],
+         [0, 0, b, 0, r, 0, 0, p]]
+    return np.array(M, dtype=np.float64) / (7 * b + 1)
+
+
+def ref_horodecki3x3(a):
+    """P. Horodecki, Phys. Lett. A 232 (1997) 333, eq. (30)"""
+    r = math.sqrt(1 - a * a) / 2
+    p = (1 + a) / 2
+    M = [[a, 0, 0, 0, a, 0, 0, 0, a],
+         [0, a, 0, 0, 0, 0, 0, 0, 0],
+         [0, 0, a, 0, 0, 0, 0, 0, 0],
+         [0, 0, 0, a, 0, 0, 0, 0, 0],
+         [a, 0, 0, 0, a, 0, 0, 0, a],
+         [0, 0, 0, 0, 0, a, 0, 0, 0],
+         [0, 0, 0, 0, 0, 0, p, 0, r],
+         [0, 0, 0, 0, 0, 0, 0, a, 0],
+         [a, 0, 0, 0, a, 0, r, 0, p]]
+    return np.array(M, dtype=np.float64) / (8 * a + 1)
+
+
+def ref_werner(d, alpha):
+    """(1 - alpha*SWAP)/(d^2 - d*alpha), SWAP built from its action on basis vectors"""
+    M = np.eye(d * d)
+    for i in range(d):
+        for j in range(d):
+            M[i * d + j, j * d + i] -= alpha
+    return M / (d * d - d * alpha)
+
+
+def ref_isotropic(d, alpha):
+    """(1-alpha) 1/d^2 + alpha |Phi><Phi|, |Phi> = sum_i |ii>/sqrt(d)"""
+    phi = np.zeros(d * d)
+    for i in range(d):
+        phi[i * d + i] = 1 / math.sqrt(d)
+    return (1 - alpha) * np.eye(d * d) / (d * d) + alpha * np.outer(phi, phi)
 
 
 def check_dm(ctx, key, rho, replay, dim=None, tol=1e-10, what=''):
@@ -407,6 +459,8 @@ def probe(ctx):
             if isinstance(rho, str):
                 ctx.fail('Werner-dm', f'Werner({d},{a}) raised {rho} inside the documented range [-1,1]', dict(op='Werner', d=d, alpha=float(a))); continue
             if check_dm(ctx, 'Werner-dm', rho, dict(op='Werner', d=d, alpha=float(a)), dim=d * d, what=f'Werner({d},{a})'):
+                if np.abs(rho - ref_werner(d, a)).max() > 1e-13:
+                    ctx.fail('Werner-formula', f'Werner({d},{a}) is not (1-alpha*SWAP)/(d^2-d*alpha)', dict(op='Werner', d=d, alpha=float(a)))
                 ppt = min_eig(pt(rho, d, d)) >= -1e-12
                 if ppt != (a <= 1 / d + 1e-12) and abs(a - 1 / d) > 1e-9:
                     ctx.fail('Werner-ppt-range', f'Werner({d},{a}): PPT={ppt} contradicts the documented separable range alpha<=1/d', dict(op='Werner', d=d, alpha=float(a)))
@@ -419,6 +473,8 @@ def probe(ctx):
             if isinstance(rho, str):
                 ctx.fail('Isotropic-dm', f'Isotropic({d},{a}) raised {rho} inside the documented range', dict(op='Isotropic', d=d, alpha=float(a))); continue
             if check_dm(ctx, 'Isotropic-dm', rho, dict(op='Isotropic', d=d, alpha=float(a)), dim=d * d, what=f'Isotropic({d},{a})'):
+                if np.abs(rho - ref_isotropic(d, a)).max() > 1e-13:
+                    ctx.fail('Isotropic-formula', f'Isotropic({d},{a}) is not (1-alpha)/d^2 + alpha |Phi><Phi|', dict(op='Isotropic', d=d, alpha=float(a)))
                 ppt = min_eig(pt(rho, d, d)) >= -1e-12
                 if ppt != (a <= 1 / (d + 1) + 1e-12) and abs(a - 1 / (d + 1)) > 1e-9:
                     ctx.fail('Isotropic-ppt-range', f'Isotropic({d},{a}): PPT={ppt} contradicts the documented separable range alpha<=1/(d+1)', dict(op='Isotropic', d=d, alpha=float(a)))
@@ -441,10 +497,14 @@ def probe(ctx):
             else:
                 ctx.probe_ok()
     for b in unit_grid(ctx, 0) + list(np.linspace(0, 1, dense * 4 + 1)):
-        for name, f, dA, dB in [('Horodecki2x4', S.get_bes2x4_Horodecki1997, 2, 4), ('Horodecki3x3', S.get_bes3x3_Horodecki1997, 3, 3)]:
+        for name, f, dA, dB, ref in [('Horodecki2x4', S.get_bes2x4_Horodecki1997, 2, 4, ref_horodecki2x4), ('Horodecki3x3', S.get_bes3x3_Horodecki1997, 3, 3, ref_horodecki3x3)]:
             rho = guarded(lambda: f(b))
             if isinstance(rho, str):
                 ctx.fail(name + '-dm', f'{name}({b}) raised {rho} inside [0,1]', dict(op=name, b=float(b))); continue
+            if rho.shape != (dA * dB, dA * dB) or np.abs(rho - ref(b)).max() > 1e-14:
+                ctx.fail(name + '-formula', f'{name}({b}) is not the matrix of Horodecki 1997 (max deviation {np.abs(rho - ref(b)).max() if rho.shape == (dA*dB, dA*dB) else rho.shape})', dict(op=name, b=float(b)))
+            else:
+                ctx.probe_ok((name, 'formula', float(b)))
             if check_dm(ctx, name + '-dm', rho, dict(op=name, b=float(b)), dim=dA * dB, what=f'{name}({b})'):
                 m = min(min_eig(pt(rho, dA, dB, 0)), min_eig(pt(rho, dA, dB, 1)))
                 if m < -1e-10:
@@ -455,7 +515,7 @@ def probe(ctx):
     # closed forms vanish on the separable range; d=2 agrees with the generic two-qubit routines
     with np.errstate(all='ignore'):
         for d in [2, 3, 4, 5, 8]:
-            sepW = [-1.0, 1 / d, 0.0, float(np.nextafter(1 / d, -2))] + list(np.linspace(-1, 1 / d, dense))
+            sepW = [-1.0, 1 / d, 0.0, float(np.nextafter(1 / d, -2))] + [1 / d - 10.0 ** (-k) for k in range(1, 14)] + list(np.linspace(-1, 1 / d, dense))
             for a in sepW:
                 vals = guarded(lambda: dict(ree=float(S.get_Werner_ree(d, a)), gme=float(S.get_Werner_GME(d, a)), eof=float(S.get_Werner_eof(d, a))))
                 if isinstance(vals, str) or any(not (abs(v) <= 1e-12) for v in vals.values()):
@@ -463,30 +523,38 @@ def probe(ctx):
                 else:
                     ctx.probe_ok(('wsep', d, float(a)))
             lo = -1 / (d * d - 1)
-            for a in [lo, 1 / (d + 1), 0.0, float(np.nextafter(1 / (d + 1), -2))] + list(np.linspace(lo, 1 / (d + 1), dense)):
+            for a in [lo, 1 / (d + 1), 0.0, float(np.nextafter(1 / (d + 1), -2))] + [1 / (d + 1) - 10.0 ** (-k) for k in range(2, 14)] + list(np.linspace(lo, 1 / (d + 1), dense)):
                 vals = guarded(lambda: dict(ree=float(S.get_Isotropic_ree(d, a)), gme=float(S.get_Isotropic_GME(d, a)), eof=float(S.get_Isotropic_eof(d, a))))
                 if isinstance(vals, str) or any(not (abs(v) <= 1e-12) for v in vals.values()):
                     ctx.fail('Isotropic-measures-separable', f'closed-form measure of Isotropic({d},{a}) does not vanish on the separable range: {vals}', dict(op='Isotropic-measures', d=d, alpha=float(a)))
                 else:
                     ctx.probe_ok(('isep', d, float(a)))
+            # REE is strictly positive on the entangled range (the states are entangled there), also close to the threshold
+            for name, f, thr in [('Werner', S.get_Werner_ree, 1 / d), ('Isotropic', S.get_Isotropic_ree, 1 / (d + 1))]:
+                for a in [thr + 1e-3, thr + 1e-2, thr + 0.1, (thr + 1) / 2, 1.0 - 1e-9]:
+                    v = guarded(lambda: float(f(d, a)))
+                    if isinstance(v, str) or not (v > 1e-9):
+                        ctx.fail(f'{name}-ree-entangled', f'{f.__name__}({d},{a}) = {v}: not positive although {name}({d},{a}) is entangled (alpha above the separability threshold {thr})', dict(op=f.__name__, d=d, alpha=float(a)))
+                    else:
+                        ctx.probe_ok((f.__name__, d, float(a)))
             # positive (entangled) just above the threshold, monotone non-decreasing
             for name, fs, grid in [('Werner', (S.get_Werner_GME, S.get_Werner_eof), np.linspace(1 / d, 1, 25)), ('Isotropic', (S.get_Isotropic_GME, S.get_Isotropic_eof), np.linspace(1 / (d + 1), 1, 25))]:
                 for f in fs:
-                    v = np.array([float(f(d, a)) for a in grid])
-                    if np.any(np.isnan(v[:-1])) or np.any(np.diff(v[:-1]) < -1e-12) or not (v[1] > 0):
+                    v = guarded(lambda: np.array([float(f(d, a)) for a in grid]))
+                    if isinstance(v, str) or np.any(np.isnan(v[:-1])) or np.any(np.diff(v[:-1]) < -1e-12) or not (v[1] > 0):
                         ctx.fail(f'{name}-measures-monotone', f'{f.__name__}({d}, .) is not positive and non-decreasing above the separability threshold', dict(op=f.__name__, d=d))
                     else:
                         ctx.probe_ok((f.__name__, d))
         for a in np.linspace(-1, 1, 41):
-            rho = S.Werner(2, a)
-            r = guarded(lambda: (abs(numqi.entangle.get_eof_2qubit(rho) - float(S.get_Werner_eof(2, a))), abs(numqi.entangle.get_gme_2qubit(rho) - float(S.get_Werner_GME(2, a)))))
+            rho = guarded(lambda: S.Werner(2, a))
+            r = rho if isinstance(rho, str) else guarded(lambda: (abs(numqi.entangle.get_eof_2qubit(rho) - float(S.get_Werner_eof(2, a))), abs(numqi.entangle.get_gme_2qubit(rho) - float(S.get_Werner_GME(2, a)))))
             if isinstance(r, str) or max(r) > 1e-7:
                 ctx.fail('Werner-measures-generic', f'closed-form EOF/GME of Werner(2,{a}) disagrees with the generic two-qubit routines: {r}', dict(op='Werner-generic', alpha=float(a)))
             else:
                 ctx.probe_ok(('wgen', float(a)))
         for a in np.linspace(-1 / 3, 1, 41):
-            rho = S.Isotropic(2, a)
-            r = guarded(lambda: (abs(numqi.entangle.get_eof_2qubit(rho) - float(S.get_Isotropic_eof(2, a))), abs(numqi.entangle.get_gme_2qubit(rho) - float(S.get_Isotropic_GME(2, a)))))
+            rho = guarded(lambda: S.Isotropic(2, a))
+            r = rho if isinstance(rho, str) else guarded(lambda: (abs(numqi.entangle.get_eof_2qubit(rho) - float(S.get_Isotropic_eof(2, a))), abs(numqi.entangle.get_gme_2qubit(rho) - float(S.get_Isotropic_GME(2, a)))))
             if isinstance(r, str) or max(r) > 1e-7:
                 ctx.fail('Isotropic-measures-generic', f'closed-form EOF/GME of Isotropic(2,{a}) disagrees with the generic two-qubit routines: {r}', dict(op='Isotropic-generic', alpha=float(a)))
             else:
